@@ -306,7 +306,7 @@ func pureIntrinsic(name string) bool {
 	if pureIntrinsicNames[name] {
 		return true
 	}
-	for _, p := range []string{"internal/bytealg.", "internal/stringslite.", "math/bits.", "unsafe.", "sync/atomic.Load"} {
+	for _, p := range []string{"crypto/sha256.", "crypto/md5.", "crypto/sha1.", "internal/bytealg.", "internal/stringslite.", "math/bits.", "unsafe.", "sync/atomic.Load"} {
 		if strings.HasPrefix(name, p) {
 			return true
 		}
